@@ -48,6 +48,20 @@ def load_variants():
         for prop, keys in (m.get('caught_after_strengthening') or {}).items():
             res.append({'id': f'seed-{sid}-{prop}', 'prop': prop, 'kind': 'firing', 'patch': os.path.join(os.path.dirname(meta), 'patch.diff'),
                         'expect': [k for k in keys[:2]]})
+    # behaviour-preserving refactorings written by independent sub-agents: silent for every property whose anchored
+    # files they touch
+    anchors = {}
+    try:
+        for line in open(os.path.join(VERIF, 'properties.jsonl'), encoding='utf-8'):
+            pr = json.loads(line)
+            anchors[pr['id']] = set(pr['anchors']['files'])
+    except OSError:
+        pass
+    for path in sorted(glob.glob(os.path.join(VERIF, 'selftest', 'refactors', '*.diff'))):
+        touched = {l[6:].strip() for l in open(path, encoding='utf-8') if l.startswith('+++ b/')}
+        for prop, files in sorted(anchors.items()):
+            if touched & files:
+                res.append({'id': f'refactor-{os.path.basename(path)[:-5]}-{prop}', 'prop': prop, 'kind': 'silent', 'patch': path})
     return res
 
 
